@@ -109,6 +109,13 @@ theorem C02_start_date_midnight {z : Zone.Zone} (h : Zone.WF z) {d : Int} (hs : 
     Zone.wall z (Zone.dateUnix z d) = d * 86400 :=
   Zone.wall_dateUnix h hs
 
+/-- the condition is exact: the surfaced instant reads midnight of that day **iff** `Settled` (so the days on
+    which a zone has no local midnight are precisely the unsettled ones; validated against the time package on
+    every day of 1985–2040 in twenty zones, stream `ZON`) -/
+theorem C02_start_date_midnight_iff {z : Zone.Zone} (h : Zone.WF z) (d : Int) :
+    Zone.wall z (Zone.dateUnix z d) = d * 86400 ↔ Zone.Settled z d :=
+  Zone.wall_dateUnix_iff h d
+
 /-- … which is guaranteed when no transition falls into the window the two look-ups can reach:
     with offsets in `[lo, hi]`, the instants `[midnight − hi, midnight − lo]` and the midnight reading itself -/
 theorem C02_start_date_midnight_quiet {z : Zone.Zone} (h : Zone.WF z) {lo hi a b d : Int}
